@@ -28,7 +28,7 @@ REQUIRE = {'writes_in_histories': 300, 'writes_on_reused_writer': 100, 'writes_t
            'reused_writer_after_set_with_language_layout': 5,
            'suite_writes_observed': 50}
 SHARDS = {'quick': 8, 'thorough': 16}
-TIME_LIMIT = {'quick': 400, 'thorough': 3600}
+TIME_LIMIT = {'quick': 1200, 'thorough': 5400}
 ALL_WRITERS = W.WRITERS + ['SCCWriter']
 
 
